@@ -207,7 +207,26 @@ def gen_case(rng, tier, ctx, i):
     rec = common.model_case(rng, tier, o)
     if rec is None:
         return None
-    return common.with_twins(rng, {"recipe": rec, "seed": rng.getrandbits(32)})
+    # nodes of every class over leaves whose bounds exclude 0, are negative, constant or wide: the flags are read on them
+    FB = [(1, 1), (1, 3), (2, 2), (-3, 0), (-2, 2), (0, 1), (0, 1), (0, 0), (-1, -1), (0, 3), (-3, -1)]
+    flag_nodes = []
+    for _ in range(3):
+        n = rng.randint(1, 4)
+        args = [{"k": "var", "id": "f%d" % j, "b": list(rng.choice(FB))} for j in range(n)]
+        k = rng.choice(["Any", "All", "AtLeast", "AtMost", "Xor", "XNor", "Imply", "Not"])
+        if rng.random() < 0.3:
+            args[0] = {"k": rng.choice(["Any", "All"]), "id": None, "args": [{"k": "var", "id": "g0", "b": [0, 1]}, {"k": "var", "id": "g1", "b": list(rng.choice(FB))}]}
+        node = {"k": k, "id": None, "args": args}
+        if k in ("AtLeast", "AtMost"):
+            node["value"] = rng.randint(-2, n + 1)
+            if k == "AtLeast" and rng.random() < 0.5:
+                node["sign"] = rng.choice([-1, 1])
+        if k == "Imply":
+            node["args"] = (args + [{"k": "var", "id": "h", "b": list(rng.choice(FB))}])[:2]
+        if k == "Not":
+            node["args"] = args[:1]
+        flag_nodes.append(node)
+    return common.with_twins(rng, {"recipe": rec, "seed": rng.getrandbits(32), "flag_nodes": flag_nodes})
 
 
 def rand_partial(rng, graph, top):
@@ -232,6 +251,17 @@ def rand_partial(rng, graph, top):
 
 def _run_one(case, ctx):
     rng = random.Random(case["seed"])
+    for fr in case.get("flag_nodes", []):
+        fm = recipes.fresh(fr)
+        if adapters.is_leaf(fm):
+            continue
+        _g, _t, finfo = adapters.graph_of(fm)
+        for nid, obj in finfo["objects"].items():
+            if not adapters.is_leaf(obj):
+                ctx.count("count:flag-node:" + type(obj).__name__)
+                ctx.call("is_tautology", lambda o=obj: o.is_tautology)
+                ctx.call("is_contradiction", lambda o=obj: o.is_contradiction)
+                ctx.call("equation_bounds", lambda o=obj: o.equation_bounds)
     m0 = recipes.fresh(case["recipe"])
     if adapters.is_leaf(m0):
         raise monitor.OutOfScope()
